@@ -745,8 +745,15 @@ func (e *Enc) ufTerm(name string, args []*Val, rt types.Type) *Val {
 		f := e.declareFun("uf!"+name+"!"+l.path, "("+strings.Join(argSorts, " ")+") "+l.sort)
 		out.c = append(out.c, app(f, argTerms...))
 	}
+	for _, a := range argTerms {
+		if boundVarRe.MatchString(a) {
+			return out // under a quantifier: side facts would mention the bound variable outside its scope
+		}
+	}
 	e.stringFnFacts(name, argTerms, out)
-	e.wfUF(out)
+	if !strings.HasPrefix(name, "spec.") {
+		e.wfUF(out)
+	}
 	return out
 }
 
